@@ -16,6 +16,7 @@ TF="-O1 -g -DNDEBUG -fsanitize=thread -fno-omit-frame-pointer -I$REPO -I$MC" # t
 par gcc -c $TF $REPO/igris/util/printf_impl.c -o $BUILD/printf_impl_tsan.o
 par gcc -c $TF -fno-builtin -Wno-implicit-function-declaration $REPO/compat/libc/stdio/sprintf.c -o $BUILD/sprintf_tsan.o
 par gcc -c $TF -fno-builtin -Wno-implicit-function-declaration $REPO/compat/libc/stdio/fdprintf.c -o $BUILD/fdprintf_tsan.o
+par gcc -c $TF -fno-builtin -Wno-implicit-function-declaration $REPO/compat/libc/stdio/fdputc.c -o $BUILD/fdputc_tsan.o
 par g++ -std=c++20 -c $TF -DREENT_ID='"C13"' -DREENT_FLOAT $H/c13_reentrancy.cpp -o $BUILD/h_tsan.o
 par g++ -std=c++20 -O2 -g -I$MC -c $MC/sched/sched.cpp -o $BUILD/sched.o
 par g++ -std=c++20 -O2 -c -I$MC $MC/mc.cpp -o $BUILD/mc_gcc.o
@@ -25,8 +26,9 @@ par gcc -c -O2 -g -DNDEBUG -funsigned-char -I$REPO $REPO/igris/util/printf_impl.
 parwait
 clang++ $BUILD/h.o $BUILD/d.o $BUILD/printf_impl_var.o $BUILD/mc.o -lm -ldl -o $BUILD/c13_variant
 objcopy --redefine-sym sprintf=igc_sprintf --redefine-sym vsprintf=igc_vsprintf --redefine-sym snprintf=igc_snprintf $BUILD/sprintf_tsan.o
-objcopy --redefine-sym fdprintf=igc_fdprintf --redefine-sym vfdprintf=igc_vfdprintf --redefine-sym fdputc=igc_fdputc $BUILD/fdprintf_tsan.o
-g++ -fsanitize=thread $BUILD/h_tsan.o $BUILD/printf_impl_tsan.o $BUILD/sprintf_tsan.o $BUILD/fdprintf_tsan.o $BUILD/sched.o $BUILD/mc_gcc.o -lm -ldl -lpthread -o $BUILD/c13_tsan
+objcopy --redefine-sym fdprintf=igc_fdprintf --redefine-sym vfdprintf=igc_vfdprintf --redefine-sym fdputc=igc_fdputc --redefine-sym write=igc_write $BUILD/fdprintf_tsan.o
+objcopy --redefine-sym fdputc=igc_fdputc --redefine-sym write=igc_write $BUILD/fdputc_tsan.o
+g++ -fsanitize=thread $BUILD/h_tsan.o $BUILD/printf_impl_tsan.o $BUILD/sprintf_tsan.o $BUILD/fdprintf_tsan.o $BUILD/fdputc_tsan.o $BUILD/sched.o $BUILD/mc_gcc.o -lm -ldl -lpthread -o $BUILD/c13_tsan
 clang++ $SAN $BUILD/h.o $BUILD/d.o $BUILD/printf_impl.o $BUILD/mc.o -lm -o $BUILD/c13
 echo "printf_float $BUILD/c13" > $BUILD/runs.txt
 echo "reentrancy $BUILD/c13_tsan" >> $BUILD/runs.txt
